@@ -925,3 +925,984 @@ Proof.
   intros Hx Hfree. destruct (raw_areas_cover start end_ genes padding x Hx Hfree) as (a & Ha & Hin).
   exists a. split; [exact Ha|]. split; [exact Hin|]. intros Hmin. apply find_intergenic_raw. split; assumption.
 Qed.
+
+(* ================================================================== per-area maximality *)
+(* x is blocked: inside some gene shrunk by the padding on both sides (the negation of free) *)
+Definition blocked (padding : Z) (genes : list (Z * Z)) (x : Z) : Prop :=
+  Exists (fun g => fst g + padding <= x < snd g - padding) genes.
+
+Lemma blocked_not_free padding genes x : blocked padding genes x -> ~ free padding genes x.
+Proof.
+  unfold blocked, free. intros Hb Hf. apply Exists_exists in Hb. destruct Hb as (g & Hin & Hg).
+  rewrite Forall_forall in Hf. specialize (Hf g Hin). lia.
+Qed.
+
+(* every gene is longer than twice the padding (so that shrinking it leaves at least one position) *)
+Definition long_genes (padding : Z) (genes : list (Z * Z)) : Prop :=
+  Forall (fun g => 2 * padding < snd g - fst g) genes.
+
+Definition lclosed (start padding : Z) (genes : list (Z * Z)) (x : Z) : Prop :=
+  x = start \/ blocked padding genes (x - 1).
+Definition rclosed (end_ padding : Z) (genes : list (Z * Z)) (x : Z) : Prop :=
+  x = end_ \/ blocked padding genes x.
+
+Lemma go_maximal start end_ padding all : long_genes padding all ->
+  forall rest last acc, incl rest all -> start <= last -> lclosed start padding all last ->
+  Forall (fun a => lclosed start padding all (fst a) /\ rclosed end_ padding all (snd a)) acc ->
+  let '(areas, last') := intergenic_go start end_ padding rest last acc in
+  start <= last' /\ lclosed start padding all last' /\
+  Forall (fun a => lclosed start padding all (fst a) /\ rclosed end_ padding all (snd a)) areas.
+Proof.
+  intros Hlong. induction rest as [|[gs ge] rest IH]; intros last acc Hincl Hsl Hlast Hacc; cbn [intergenic_go].
+  - split; [exact Hsl|]. split; assumption.
+  - assert (Hin : In (gs, ge) all) by (apply Hincl; left; reflexivity).
+    assert (Hincl' : incl rest all) by (intros g Hg; apply Hincl; right; exact Hg).
+    assert (Hlen : 2 * padding < ge - gs).
+    { unfold long_genes in Hlong. rewrite Forall_forall in Hlong. exact (Hlong _ Hin). }
+    assert (Hlast' : lclosed start padding all (Z.max last (ge - padding))).
+    { destruct (Z_le_gt_dec (ge - padding) last) as [Hle|Hgt].
+      - rewrite Z.max_l by lia. exact Hlast.
+      - rewrite Z.max_r by lia. right. unfold blocked. apply Exists_exists.
+        exists (gs, ge). split; [exact Hin|]. cbn [fst snd]. lia. }
+    destruct (last <? gs + padding) eqn:Hgap.
+    + specialize (IH (Z.max last (ge - padding)) (acc ++ [(Z.max start last, Z.min end_ (gs + padding))])
+                     Hincl' ltac:(lia) Hlast').
+      destruct (intergenic_go start end_ padding rest (Z.max last (ge - padding))
+                              (acc ++ [(Z.max start last, Z.min end_ (gs + padding))])) as [areas last'].
+      apply IH. apply Forall_app. split; [exact Hacc|]. constructor; [|constructor]. cbn [fst snd]. split.
+      * rewrite Z.max_r by lia. exact Hlast.
+      * destruct (Z_le_gt_dec end_ (gs + padding)) as [Hle|Hgt].
+        -- left. lia.
+        -- right. rewrite Z.min_r by lia. unfold blocked. apply Exists_exists.
+           exists (gs, ge). split; [exact Hin|]. cbn [fst snd]. lia.
+    + destruct ((gs <=? last) && (last <=? ge)) eqn:Hinside.
+      * specialize (IH (Z.max last (ge - padding)) acc Hincl' ltac:(lia) Hlast' Hacc).
+        destruct (intergenic_go start end_ padding rest (Z.max last (ge - padding)) acc) as [areas last'].
+        exact IH.
+      * specialize (IH last acc Hincl' Hsl Hlast Hacc).
+        destruct (intergenic_go start end_ padding rest last acc) as [areas last']. exact IH.
+Qed.
+
+(* every area (before the length filter) is closed on both sides: it begins at the range start or just
+   after a blocked position, and ends at the range end or on a blocked position - for EVERY gene list
+   whose genes are longer than twice the padding *)
+Lemma raw_areas_maximal start end_ genes padding a :
+  long_genes padding genes -> In a (raw_areas start end_ genes padding) ->
+  lclosed start padding genes (fst a) /\ rclosed end_ padding genes (snd a).
+Proof.
+  intros Hlong Hin. unfold raw_areas in Hin.
+  pose proof (go_maximal start end_ padding genes Hlong genes start [] (incl_refl _) (Z.le_refl _)
+                         (or_introl eq_refl) (Forall_nil _)) as H.
+  destruct (intergenic_go start end_ padding genes start []) as [areas last].
+  destruct H as (Hs & Hlast & Hareas). rewrite Forall_forall in Hareas.
+  destruct (last <? end_) eqn:Hle; [|exact (Hareas a Hin)].
+  apply in_app_or in Hin. destruct Hin as [Hin|[<-|[]]]; [exact (Hareas a Hin)|].
+  cbn [fst snd]. split; [rewrite Z.max_r by lia; exact Hlast|left; reflexivity].
+Qed.
+
+(* a maximal free run of [start, end): non-empty, all positions free, not extendable on either side *)
+Definition free_run (start end_ padding : Z) (genes : list (Z * Z)) (a b : Z) : Prop :=
+  start <= a /\ a < b /\ b <= end_ /\
+  (forall x, a <= x < b -> free padding genes x) /\
+  (a = start \/ ~ free padding genes (a - 1)) /\
+  (b = end_ \/ ~ free padding genes b).
+
+(* C15_intergenic: for genes ordered by start and longer than twice the padding, the non-empty areas are
+   EXACTLY the maximal free runs of the searched range *)
+Lemma raw_areas_exact start end_ genes padding a b :
+  0 <= padding -> starts_sorted genes -> long_genes padding genes -> a < b ->
+  (In (a, b) (raw_areas start end_ genes padding) <-> free_run start end_ padding genes a b).
+Proof.
+  intros Hpad Hsorted Hlong Hab. split.
+  - intros Hin.
+    pose proof (raw_areas_free start end_ genes padding (a, b) a Hpad Hsorted Hin ltac:(cbn [fst snd]; lia)) as [Ha _].
+    pose proof (raw_areas_free start end_ genes padding (a, b) (b - 1) Hpad Hsorted Hin ltac:(cbn [fst snd]; lia)) as [Hb _].
+    destruct (raw_areas_maximal start end_ genes padding (a, b) Hlong Hin) as [Hl Hr]. cbn [fst snd] in Hl, Hr.
+    unfold free_run. repeat split; try lia.
+    + intros x Hx. apply (raw_areas_free start end_ genes padding (a, b) x Hpad Hsorted Hin). cbn [fst snd]. exact Hx.
+    + destruct Hl as [Hl|Hl]; [left; exact Hl|right; apply blocked_not_free; exact Hl].
+    + destruct Hr as [Hr|Hr]; [left; exact Hr|right; apply blocked_not_free; exact Hr].
+  - intros (Hsa & _ & Hbe & Hfree & Hleft & Hright).
+    destruct (raw_areas_cover start end_ genes padding a ltac:(lia) (Hfree a ltac:(lia))) as ([a' b'] & Hin & Hx).
+    cbn [fst snd] in Hx.
+    pose proof (raw_areas_free start end_ genes padding (a', b') a' Hpad Hsorted Hin ltac:(cbn [fst snd]; lia)) as [Ha' _].
+    pose proof (raw_areas_free start end_ genes padding (a', b') (b' - 1) Hpad Hsorted Hin ltac:(cbn [fst snd]; lia)) as [Hb' _].
+    assert (Hfree' : forall x, a' <= x < b' -> free padding genes x).
+    { intros x Hxx. apply (raw_areas_free start end_ genes padding (a', b') x Hpad Hsorted Hin). cbn [fst snd]. exact Hxx. }
+    destruct (raw_areas_maximal start end_ genes padding (a', b') Hlong Hin) as [Hl Hr]. cbn [fst snd] in Hl, Hr.
+    assert (Ea : a' = a).
+    { destruct (Z.eq_dec a' a) as [E|E]; [exact E|exfalso].
+      destruct Hleft as [Hleft|Hleft]; [lia|]. apply Hleft. apply Hfree'. lia. }
+    subst a'.
+    assert (Eb : b' = b).
+    { destruct (Z_lt_le_dec b' b) as [Hlt|Hge].
+      - exfalso. destruct Hr as [Hr|Hr]; [lia|]. apply (blocked_not_free _ _ _ Hr). apply Hfree. lia.
+      - destruct (Z.eq_dec b' b) as [E|E]; [exact E|exfalso].
+        destruct Hright as [Hright|Hright]; [lia|]. apply Hright. apply Hfree'. lia. }
+    subst b'. exact Hin.
+Qed.
+
+(* without the length guard the statement is false, already for a gene of exactly twice the padding:
+   gene [10, 30), padding 10 - the shrunk gene is empty, every position is free, yet the range [0, 100)
+   is reported as the two areas (0, 20) and (20, 100) *)
+Lemma raw_areas_maximal_refuted : exists start end_ genes padding a,
+  0 <= padding /\ starts_sorted genes /\ Forall (fun g => 2 * padding <= snd g - fst g) genes /\
+  In a (raw_areas start end_ genes padding) /\ fst a < snd a /\ snd a < end_ /\ free padding genes (snd a).
+Proof.
+  exists 0, 100, [(10, 30)], 10, (0, 20). split; [lia|]. split; [cbn; split; [constructor|exact I]|].
+  split; [constructor; [cbn; lia|constructor]|].
+  split; [vm_compute; left; reflexivity|]. cbn [fst snd]. split; [lia|]. split; [lia|].
+  unfold free. constructor; [cbn; lia|constructor].
+Qed.
+
+(* ================================================================== C15_gaps: find_all_orfs *)
+(* ------------------------------------------------------------------ ranges of positions *)
+Definition count (P : Z -> bool) (l : list Z) : Z := zlen (filter P l).
+
+Lemma count_app P a b : count P (a ++ b) = count P a + count P b.
+Proof. unfold count. rewrite filter_app. apply zlen_app. Qed.
+Lemma count_nonneg P l : 0 <= count P l.
+Proof. unfold count, zlen. lia. Qed.
+Lemma count_rev P l : count P (rev l) = count P l.
+Proof.
+  induction l as [|x l IH]; [reflexivity|]. cbn [rev]. rewrite count_app, IH.
+  unfold count. cbn [filter]. destruct (P x); unfold zlen; cbn [length]; lia.
+Qed.
+Lemma count_none P l : (forall x, In x l -> P x = false) -> count P l = 0.
+Proof.
+  induction l as [|x l IH]; intros H; [reflexivity|]. unfold count in *. cbn [filter].
+  rewrite (H x (or_introl eq_refl)). apply IH. intros y Hy. apply H. right. exact Hy.
+Qed.
+Lemma count_cons P x l : count P (x :: l) = (if P x then 1 else 0) + count P l.
+Proof. unfold count. cbn [filter]. destruct (P x); unfold zlen; cbn [length]; lia. Qed.
+
+Lemma zrange_nonpos a n : n <= 0 -> zrange a n = [].
+Proof. intros H. unfold zrange. replace (Z.to_nat n) with 0%nat by lia. reflexivity. Qed.
+Lemma zrange_cons a n : 0 < n -> zrange a n = a :: zrange (a + 1) (n - 1).
+Proof.
+  intros H. unfold zrange. replace (Z.to_nat n) with (S (Z.to_nat (n - 1))) by lia.
+  cbn [seq map]. f_equal; [lia|]. rewrite <- seq_shift, map_map. apply map_ext. intros i. lia.
+Qed.
+Lemma zrange_In a n x : In x (zrange a n) <-> a <= x < a + n.
+Proof.
+  unfold zrange. rewrite in_map_iff. split.
+  - intros (i & <- & Hi). apply in_seq in Hi. lia.
+  - intros H. exists (Z.to_nat (x - a)). split; [lia|]. apply in_seq. lia.
+Qed.
+Lemma zrange_app a m k : 0 <= m -> 0 <= k -> zrange a (m + k) = zrange a m ++ zrange (a + m) k.
+Proof.
+  intros Hm Hk. unfold zrange. replace (Z.to_nat (m + k)) with (Z.to_nat m + Z.to_nat k)%nat by lia.
+  rewrite seq_app, map_app. f_equal. cbn [plus].
+  rewrite <- (Nat.add_0_r (Z.to_nat m)) at 1. rewrite Nat.add_comm.
+  replace (seq (0 + Z.to_nat m) (Z.to_nat k)) with (map (fun i => (i + Z.to_nat m)%nat) (seq 0 (Z.to_nat k))).
+  - rewrite map_map. apply map_ext. intros i. lia.
+  - generalize 0%nat. induction (Z.to_nat k) as [|j IH]; intros s; [reflexivity|]. cbn [seq map]. f_equal. apply IH.
+Qed.
+Lemma zlen_zrange a n : 0 <= n -> zlen (zrange a n) = n.
+Proof. intros H. unfold zrange, zlen. rewrite map_length, seq_length. lia. Qed.
+
+(* a middle piece of a range *)
+Lemma zrange_split a n i k : 0 <= i -> 0 <= k -> i + k <= n ->
+  zrange a n = zrange a i ++ zrange (a + i) k ++ zrange (a + i + k) (n - i - k).
+Proof.
+  intros Hi Hk Hn. replace n with (i + (k + (n - i - k))) at 1 by lia.
+  rewrite zrange_app by lia. f_equal. rewrite zrange_app by lia. reflexivity.
+Qed.
+
+(* at most as many hits in a range as the range shares with an interval containing all hits *)
+Lemma count_zrange_le P lo hi : (forall x, P x = true -> lo <= x < hi) ->
+  forall k a, count P (zrange a (Z.of_nat k)) <= Z.max 0 (Z.min (a + Z.of_nat k) hi - Z.max a lo).
+Proof.
+  intros HP. induction k as [|k IH]; intros a.
+  - cbn. lia.
+  - rewrite zrange_cons by lia. replace (Z.of_nat (S k) - 1) with (Z.of_nat k) by lia.
+    rewrite count_cons. specialize (IH (a + 1)).
+    destruct (P a) eqn:Ha.
+    + apply HP in Ha. lia.
+    + lia.
+Qed.
+Lemma count_zrange_bound P lo hi a n : (forall x, P x = true -> lo <= x < hi) -> 0 <= n ->
+  count P (zrange a n) <= Z.max 0 (Z.min (a + n) hi - Z.max a lo).
+Proof.
+  intros HP Hn. pose proof (count_zrange_le P lo hi HP (Z.to_nat n) a) as H.
+  rewrite Z2Nat.id in H by lia. exact H.
+Qed.
+
+(* reduction modulo the record length *)
+Lemma map_mod_zrange_id N a n : 0 <= a -> a + n <= N ->
+  map (fun y => y mod N) (zrange a n) = zrange a n.
+Proof.
+  intros Ha Hn. rewrite <- (map_id (zrange a n)) at 2. apply map_ext_in. intros x Hx.
+  apply zrange_In in Hx. apply Z.mod_small. lia.
+Qed.
+Lemma map_mod_zrange_shift N a n q :
+  map (fun y => y mod N) (zrange (a + q * N) n) = map (fun y => y mod N) (zrange a n).
+Proof.
+  unfold zrange. rewrite !map_map. apply map_ext. intros i.
+  replace (a + q * N + Z.of_nat i) with (a + Z.of_nat i + q * N) by lia. apply Z_mod_plus_full.
+Qed.
+
+(* ------------------------------------------------------------------ positions of a reported location *)
+Lemma positions_single p : positions [p] = part_positions p.
+Proof. unfold positions. cbn [flat_map]. apply app_nil_r. Qed.
+Lemma positions_two p q : positions [p; q] = part_positions p ++ part_positions q.
+Proof. unfold positions. cbn [flat_map]. rewrite app_nil_r. reflexivity. Qed.
+
+Lemma positions_ring_loc N x' len direction : (direction = 1 \/ direction = -1) ->
+  0 <= x' < N -> 1 <= len <= N ->
+  positions (ring_loc N x' len direction) =
+  let r := map (fun y => y mod N) (zrange x' len) in if direction =? -1 then rev r else r.
+Proof.
+  intros Hdir Hx Hlen. cbn zeta. unfold ring_loc. destruct (x' + len <=? N) eqn:Hc.
+  - rewrite positions_single. unfold part_positions. cbn [ps pe pst].
+    replace (x' + len - x') with len by lia. rewrite map_mod_zrange_id by lia. reflexivity.
+  - assert (Hsplit : map (fun y => y mod N) (zrange x' len) = zrange x' (N - x') ++ zrange 0 (x' + len - N)).
+    { replace len with ((N - x') + (x' + len - N)) at 1 by lia. rewrite zrange_app by lia.
+      rewrite map_app. rewrite map_mod_zrange_id by lia. f_equal.
+      replace (x' + (N - x')) with (0 + 1 * N) by lia. rewrite map_mod_zrange_shift.
+      apply map_mod_zrange_id; lia. }
+    rewrite Hsplit. destruct Hdir as [-> | ->]; cbn [Z.eqb Pos.eqb].
+    + rewrite positions_two. unfold part_positions. cbn [ps pe pst Z.eqb].
+      replace (x' + len - N - 0) with (x' + len - N) by lia. reflexivity.
+    + rewrite positions_two. unfold part_positions. cbn [ps pe pst Z.eqb Pos.eqb].
+      replace (x' + len - N - 0) with (x' + len - N) by lia. rewrite rev_app_distr. reflexivity.
+Qed.
+
+(* the positions of the location computed for the window stretch [s, e] are the positions the stretch occupies on
+   the ring, in transcription order: exactly what the run-time specification (Model.loc_is_orf) compares with *)
+Lemma positions_orf_location direction offset n N s e :
+  (direction = 1 \/ direction = -1) -> 0 < N -> s <= e -> e - s + 1 <= N ->
+  positions (orf_location direction offset n (Some N) (s, e)) =
+  expected_positions direction offset n (Some N) (s, e).
+Proof.
+  intros Hdir HN Hse Hlen.
+  rewrite (orf_location_shape direction offset n N s e Hdir HN Hse Hlen). cbn zeta.
+  set (x := if direction =? 1 then s + offset else n + offset - e - 1).
+  pose proof (Z.mod_pos_bound (x + N) N HN) as Hb.
+  pose proof (Z.div_mod (x + N) N ltac:(lia)) as Hd.
+  rewrite positions_ring_loc by (try assumption; lia). cbn zeta.
+  assert (Hshift : map (fun y => y mod N) (zrange ((x + N) mod N) (e - s + 1)) =
+                   map (fun y => y mod N) (zrange x (e - s + 1))).
+  { replace x with ((x + N) mod N + ((x + N) / N - 1) * N) at 2 by lia. symmetry. apply map_mod_zrange_shift. }
+  rewrite Hshift. unfold expected_positions, x.
+  destruct Hdir as [-> | ->]; cbn [Z.eqb Pos.eqb].
+  - replace (offset + s) with (s + offset) by lia. reflexivity.
+  - replace (offset + n - 1 - e) with (n + offset - e - 1) by lia. rewrite map_rev. reflexivity.
+Qed.
+
+(* ------------------------------------------------------------------ genes *)
+Lemma fold_min_le : forall xs x, fold_left Z.min xs x <= x /\ forall v, In v xs -> fold_left Z.min xs x <= v.
+Proof.
+  induction xs as [|y xs IH]; intros x; cbn [fold_left]; [split; [lia|intros v []]|].
+  destruct (IH (Z.min x y)) as [H1 H2]. split; [lia|]. intros v [<-|Hv]; [lia|apply H2; exact Hv].
+Qed.
+Lemma fold_max_ge : forall xs x, x <= fold_left Z.max xs x /\ forall v, In v xs -> v <= fold_left Z.max xs x.
+Proof.
+  induction xs as [|y xs IH]; intros x; cbn [fold_left]; [split; [lia|intros v []]|].
+  destruct (IH (Z.max x y)) as [H1 H2]. split; [lia|]. intros v [<-|Hv]; [lia|apply H2; exact Hv].
+Qed.
+Lemma lmin_le l v : In v l -> lmin l <= v.
+Proof.
+  destruct l as [|x xs]; [intros []|]. cbn [lmin]. destruct (fold_min_le xs x) as [H1 H2].
+  intros [<-|Hv]; [exact H1|apply H2; exact Hv].
+Qed.
+Lemma lmax_ge l v : In v l -> v <= lmax l.
+Proof.
+  destruct l as [|x xs]; [intros []|]. cbn [lmax]. destruct (fold_max_ge xs x) as [H1 H2].
+  intros [<-|Hv]; [exact H1|apply H2; exact Hv].
+Qed.
+
+(* a position inside a gene lies inside the gene's span (start, end) - what find_intergenic_areas looks at *)
+Lemma in_loc_span x c : in_loc x c = true -> fst (gene_span c) <= x < snd (gene_span c).
+Proof.
+  unfold in_loc, gene_span. cbn [fst snd]. intros H. apply existsb_exists in H. destruct H as (p & Hp & Hx).
+  unfold in_part in Hx. apply andb_prop in Hx. destruct Hx as [H1 H2].
+  pose proof (lmin_le (map ps c) (ps p) (in_map ps c p Hp)).
+  pose proof (lmax_ge (map pe c) (pe p) (in_map pe c p Hp)).
+  unfold lstart, lend. apply Z.leb_le in H1. apply Z.ltb_lt in H2. clear Hp. lia.
+Qed.
+
+(* two parts sharing a position overlap in the sense of locations_overlap *)
+Lemma part_overlap_shared x a b : in_part x a = true -> in_part x b = true -> part_overlap a b = true.
+Proof.
+  unfold part_overlap, in_part. intros Ha Hb.
+  apply andb_prop in Ha. destruct Ha as [A1 A2]. apply andb_prop in Hb. destruct Hb as [B1 B2].
+  apply Z.leb_le in A1, B1. apply Z.ltb_lt in A2, B2.
+  destruct (Z_le_gt_dec (ps b) (ps a)) as [Hle|Hgt].
+  - assert (E : (ps b <=? ps a) && (ps a <? pe b) = true)
+      by (apply andb_true_intro; split; [apply Z.leb_le|apply Z.ltb_lt]; lia).
+    rewrite E. reflexivity.
+  - assert (E : (ps a <=? ps b) && (ps b <? pe a) = true)
+      by (apply andb_true_intro; split; [apply Z.leb_le|apply Z.ltb_lt]; lia).
+    rewrite E. rewrite !orb_true_r. reflexivity.
+Qed.
+(* a gene not overlapping a part has no position in it *)
+Lemma no_overlap_no_position c p x : overlap c [p] = false -> in_loc x c = true -> in_part x p = false.
+Proof.
+  intros Hov Hx. destruct (in_part x p) eqn:Hp; [|reflexivity]. exfalso.
+  unfold in_loc in Hx. apply existsb_exists in Hx. destruct Hx as (q & Hq & Hxq).
+  assert (overlap c [p] = true); [|congruence].
+  unfold overlap. apply existsb_exists. exists q. split; [exact Hq|]. cbn [existsb].
+  rewrite (part_overlap_shared x q p Hxq Hp). reflexivity.
+Qed.
+
+Lemma part_eqb_eq a b : part_eqb a b = true -> a = b.
+Proof.
+  unfold part_eqb. intros H. apply andb_prop in H. destruct H as [H H3]. apply andb_prop in H. destruct H as [H1 H2].
+  apply Z.eqb_eq in H1, H2, H3. destruct a, b. cbn in *. subst. reflexivity.
+Qed.
+Lemma loc_eqb_eq : forall a b, loc_eqb a b = true -> a = b.
+Proof.
+  unfold loc_eqb. induction a as [|x a IH]; intros [|y b] H; cbn in H; try discriminate; [reflexivity|].
+  apply andb_prop in H. destruct H as [H1 H2]. apply part_eqb_eq in H1. apply IH in H2. subst. reflexivity.
+Qed.
+
+Lemma starts_sortedb_spec genes : starts_sortedb genes = true -> starts_sorted genes.
+Proof.
+  induction genes as [|g r IH]; intros H; [exact I|]. cbn in H. apply andb_prop in H. destruct H as [H1 H2].
+  cbn [starts_sorted]. split; [|apply IH; exact H2].
+  apply Forall_forall. intros h Hh. rewrite forallb_forall in H1. specialize (H1 h Hh). apply Z.leb_le. exact H1.
+Qed.
+
+Lemma starts_sorted_skipn : forall k l, starts_sorted l -> starts_sorted (skipn k l).
+Proof.
+  induction k as [|k IH]; intros l H; [exact H|]. destruct l as [|x l]; [exact I|]. cbn [skipn].
+  apply IH. destruct H as [_ H]. exact H.
+Qed.
+Lemma within_go_In location x : forall fs, In x (within_go location fs) -> In x fs.
+Proof.
+  induction fs as [|f rest IH]; intros H; [destruct H|]. cbn [within_go] in H.
+  destruct (contains location f).
+  - destruct H as [<-|H]; [left; reflexivity|right; apply IH; exact H].
+  - destruct (overlap f location).
+    + destruct H as [<-|H]; [left; reflexivity|right; apply IH; exact H].
+    + destruct rest as [|nxt rest']; [destruct H|].
+      destruct (contains f nxt); [right; apply IH; exact H|destruct H].
+Qed.
+Lemma within_go_sorted location : forall fs, starts_sorted (map gene_span fs) ->
+  starts_sorted (map gene_span (within_go location fs)).
+Proof.
+  induction fs as [|f rest IH]; intros H; [exact I|]. cbn [map starts_sorted] in H. destruct H as [Hf Hr].
+  assert (Hcons : starts_sorted (map gene_span (f :: within_go location rest))).
+  { cbn [map starts_sorted]. split; [|apply IH; exact Hr].
+    apply Forall_forall. intros h Hh. apply in_map_iff in Hh. destruct Hh as (c & <- & Hc).
+    apply within_go_In in Hc. rewrite Forall_forall in Hf. apply Hf. apply in_map. exact Hc. }
+  cbn [within_go]. destruct (contains location f); [exact Hcons|].
+  destruct (overlap f location); [exact Hcons|].
+  destruct rest as [|nxt rest']; [exact I|]. destruct (contains f nxt); [apply IH; exact Hr|exact I].
+Qed.
+Lemma cds_within_sorted cds p : starts_sorted (map gene_span cds) -> starts_sorted (map gene_span (cds_within cds p)).
+Proof.
+  intros H. unfold cds_within. destruct cds as [|c0 cds']; [exact I|].
+  apply within_go_sorted. rewrite <- skipn_map. apply starts_sorted_skipn. exact H.
+Qed.
+
+(* ------------------------------------------------------------------ the intergenic areas of find_all_orfs *)
+(* an area that find_all_orfs may scan: a window of the record (possibly over the origin) not longer than the
+   record, sharing at most max_overlap positions with every gene of the record, inside the searched part *)
+Definition area_ok (N : Z) (cds : list loc) (area : option loc) (ov : Z) (a : Z * Z) : Prop :=
+  window_ok N (fst a) (snd a) /\ snd a - fst a <= N /\
+  (forall c, In c cds -> count (fun x => in_loc x c) (area_positions N a) <= ov) /\
+  (forall x, In x (area_positions N a) -> in_searched N area x = true).
+
+Lemma area_bounds start end_ genes ml ov a : 0 <= ov -> starts_sorted genes ->
+  In a (find_intergenic_areas start end_ genes ml ov) -> start <= fst a /\ snd a <= end_ /\ ml <= snd a - fst a.
+Proof.
+  intros Hov Hs Hin. pose proof (find_intergenic_sound start end_ genes ml ov Hov Hs) as H.
+  rewrite Forall_forall in H. destruct (H a Hin) as (H1 & H2 & H3 & _). auto.
+Qed.
+
+Lemma found_gene_bound start end_ found ml ov a c :
+  0 <= ov -> starts_sorted (map gene_span found) ->
+  In a (find_intergenic_areas start end_ (map gene_span found) ml ov) -> In c found ->
+  count (fun x => in_loc x c) (zrange (fst a) (snd a - fst a)) <= ov.
+Proof.
+  intros Hov Hs Hin Hc. pose proof (find_intergenic_sound start end_ _ ml ov Hov Hs) as H.
+  rewrite Forall_forall in H. destruct (H a Hin) as (_ & _ & _ & Hg).
+  rewrite Forall_forall in Hg. specialize (Hg (gene_span c) (in_map gene_span found c Hc)).
+  unfold overlap_len in Hg.
+  destruct (Z_le_gt_dec 0 (snd a - fst a)) as [Hn|Hn].
+  - pose proof (count_zrange_bound (fun x => in_loc x c) (fst (gene_span c)) (snd (gene_span c))
+                  (fst a) (snd a - fst a) (fun x Hx => in_loc_span x c Hx) Hn) as Hb.
+    replace (fst a + (snd a - fst a)) with (snd a) in Hb by lia. lia.
+  - rewrite zrange_nonpos by lia. cbn. exact Hov.
+Qed.
+
+(* the gap search over the genes the look-up helper returns for a part: when the helper misses no gene that
+   overlaps the part, the bound holds for EVERY gene of the record *)
+Lemma part_gene_bound cds p ml ov a c :
+  0 <= ov -> starts_sorted (map gene_span cds) -> helper_complete cds p = true ->
+  In a (find_intergenic_areas (ps p) (pe p) (map gene_span (cds_within cds p)) ml ov) -> In c cds ->
+  count (fun x => in_loc x c) (zrange (fst a) (snd a - fst a)) <= ov.
+Proof.
+  intros Hov Hs Hhelp Hin Hc.
+  pose proof (cds_within_sorted cds p Hs) as Hs'.
+  unfold helper_complete in Hhelp. rewrite forallb_forall in Hhelp. specialize (Hhelp c Hc).
+  apply orb_prop in Hhelp. destruct Hhelp as [Hno|Hfound].
+  - apply negb_true_iff in Hno.
+    destruct (area_bounds _ _ _ _ _ _ Hov Hs' Hin) as (Hb1 & Hb2 & _).
+    rewrite count_none; [exact Hov|]. intros x Hx. apply zrange_In in Hx.
+    destruct (in_loc x c) eqn:Hxc; [|reflexivity]. exfalso.
+    pose proof (no_overlap_no_position c p x Hno Hxc) as Hp. unfold in_part in Hp.
+    apply andb_false_iff in Hp. destruct Hp as [Hp|Hp]; [apply Z.leb_gt in Hp|apply Z.ltb_ge in Hp]; lia.
+  - apply existsb_exists in Hfound. destruct Hfound as (d & Hd & Heq). apply loc_eqb_eq in Heq. subst d.
+    exact (found_gene_bound _ _ _ _ _ _ _ Hov Hs' Hin Hd).
+Qed.
+
+Lemma plain_area_ok N cds area ov a lo hi :
+  0 <= lo -> lo <= fst a -> fst a <= snd a -> snd a <= hi -> hi <= N ->
+  (forall c, In c cds -> count (fun x => in_loc x c) (zrange (fst a) (snd a - fst a)) <= ov) ->
+  (forall x, lo <= x < hi -> in_searched N area x = true) ->
+  area_ok N cds area ov a.
+Proof.
+  intros H0 H1 H2 H3 H4 Hc Hs. unfold area_ok, area_positions.
+  rewrite map_mod_zrange_id by lia. split; [left; lia|]. split; [lia|]. split; [exact Hc|].
+  intros x Hx. apply zrange_In in Hx. apply Hs. lia.
+Qed.
+
+(* the loop that looks for the areas touching the origin: an index it reports points at an area ending on the
+   record end (pre) / starting at the origin (post) *)
+Lemma origin_scan_spec n : forall areas i pre post pre' post',
+  origin_scan n areas i pre post = Ok (pre', post') ->
+  (pre' = pre \/ exists k, pre' = Some (i + Z.of_nat k) /\ (k < length areas)%nat /\ snd (nth k areas (0, 0)) = n) /\
+  (post' = post \/ exists k, post' = Some (i + Z.of_nat k) /\ (k < length areas)%nat /\ fst (nth k areas (0, 0)) = 0).
+Proof.
+  induction areas as [|a rest IH]; intros i pre post pre' post' H; cbn [origin_scan] in H.
+  - inversion H; subst. split; left; reflexivity.
+  - set (P1 := if fst a =? 0
+               then match post with Some k => if k =? 0 then Ok (Some i) else Err E_Assert | None => Ok (Some i) end
+               else Ok post) in H.
+    destruct P1 as [post1|] eqn:HP1; [|discriminate]. cbn [bind] in H.
+    set (P2 := if snd a =? n
+               then match pre with Some k => if k =? 0 then Ok (Some i) else Err E_Assert | None => Ok (Some i) end
+               else Ok pre) in H.
+    destruct P2 as [pre1|] eqn:HP2; [|discriminate]. cbn [bind] in H.
+    apply IH in H. destruct H as [Hpre Hpost].
+    assert (Hpost1 : post1 = post \/ (post1 = Some i /\ fst a = 0)).
+    { unfold P1 in HP1. destruct (fst a =? 0) eqn:E; [|inversion HP1; left; reflexivity].
+      apply Z.eqb_eq in E. right. split; [|exact E].
+      destruct post as [k|]; [destruct (k =? 0); [|discriminate]|]; inversion HP1; reflexivity. }
+    assert (Hpre1 : pre1 = pre \/ (pre1 = Some i /\ snd a = n)).
+    { unfold P2 in HP2. destruct (snd a =? n) eqn:E; [|inversion HP2; left; reflexivity].
+      apply Z.eqb_eq in E. right. split; [|exact E].
+      destruct pre as [k|]; [destruct (k =? 0); [|discriminate]|]; inversion HP2; reflexivity. }
+    clear HP1 HP2 P1 P2. split.
+    + destruct Hpre as [->|(k & -> & Hk & Hn)].
+      * destruct Hpre1 as [->|[-> Hn]]; [left; reflexivity|].
+        right. exists 0%nat. split; [f_equal; lia|]. split; [cbn; lia|exact Hn].
+      * right. exists (S k). split; [f_equal; lia|]. split; [cbn [length]; lia|exact Hn].
+    + destruct Hpost as [->|(k & -> & Hk & Hn)].
+      * destruct Hpost1 as [->|[-> Hn]]; [left; reflexivity|].
+        right. exists 0%nat. split; [f_equal; lia|]. split; [cbn; lia|exact Hn].
+      * right. exists (S k). split; [f_equal; lia|]. split; [cbn [length]; lia|exact Hn].
+Qed.
+
+Lemma In_firstn_incl {A} (x : A) : forall k l, In x (firstn k l) -> In x l.
+Proof.
+  induction k as [|k IH]; intros l H; [destruct H|]. destruct l as [|y l]; [destruct H|].
+  cbn [firstn] in H. destruct H as [<-|H]; [left; reflexivity|right; apply IH; exact H].
+Qed.
+Lemma In_skipn_incl {A} (x : A) : forall k l, In x (skipn k l) -> In x l.
+Proof.
+  induction k as [|k IH]; intros l H; [exact H|]. destruct l as [|y l]; [destruct H|].
+  cbn [skipn] in H. right. apply IH. exact H.
+Qed.
+Lemma list_pop_In {A} (x : A) l i : In x (list_pop l i) -> In x l.
+Proof.
+  unfold list_pop. intros H. apply in_app_or in H.
+  destruct H as [H|H]; [eapply In_firstn_incl; exact H|eapply In_skipn_incl; exact H].
+Qed.
+Lemma list_set_In {A} (x y : A) l i l' : list_set l i x = Ok l' -> In y l' -> y = x \/ In y l.
+Proof.
+  unfold list_set. destruct (i <? zlen l); [|discriminate]. intros H.
+  assert (E : l' = firstn (Z.to_nat i) l ++ x :: skipn (S (Z.to_nat i)) l) by congruence.
+  clear H. subst l'. intros Hy.
+  apply in_app_or in Hy. destruct Hy as [Hy|[<-|Hy]].
+  - right. eapply In_firstn_incl. exact Hy.
+  - left. reflexivity.
+  - right. exact (In_skipn_incl y (S (Z.to_nat i)) l Hy).
+Qed.
+
+(* what _find_cross_origin_intergenic returns: areas of the per-part searches, and possibly one window joining an
+   area that ends on the record end with one that starts at the origin *)
+Lemma cross_origin_result n cds area ml ov res_ :
+  cross_origin_intergenic n cds area ml ov = Ok res_ ->
+  let areas := flat_map (fun p => find_intergenic_areas (ps p) (pe p) (map gene_span (cds_within cds p)) ml ov) area in
+  forall y, In y res_ ->
+    In y areas \/
+    exists pre post, In pre areas /\ In post areas /\ snd pre = n /\ fst post = 0 /\ fst pre - n < 0 /\
+                     y = (fst pre - n, snd post).
+Proof.
+  unfold cross_origin_intergenic. cbn zeta.
+  set (areas := flat_map _ area). intros H y Hy.
+  destruct (origin_scan n areas 0 None None) as [[pre post]|] eqn:Hscan; [|discriminate]. cbn [bind] in H.
+  apply origin_scan_spec in Hscan. destruct Hscan as [Hpre Hpost].
+  destruct pre as [pre_i|]; [|inversion H; subst; left; exact Hy].
+  destruct post as [post_i|]; [|inversion H; subst; left; exact Hy].
+  destruct Hpre as [Hpre|(k1 & Hk1 & Hl1 & Hn1)]; [discriminate|].
+  destruct Hpost as [Hpost|(k2 & Hk2 & Hl2 & Hn2)]; [discriminate|].
+  inversion Hk1; subst pre_i. inversion Hk2; subst post_i. clear Hk1 Hk2.
+  rewrite !Nat2Z.id in H.
+  destruct (negb (fst (nth k1 areas (0, 0)) - n <? 0)) eqn:Hneg; [discriminate|].
+  apply negb_false_iff in Hneg. apply Z.ltb_lt in Hneg.
+  destruct (list_set_In _ y _ _ _ H Hy) as [->|Hin].
+  - right. exists (nth k1 areas (0, 0)), (nth k2 areas (0, 0)).
+    split; [apply nth_In; exact Hl1|]. split; [apply nth_In; exact Hl2|]. auto.
+  - left. eapply list_pop_In. exact Hin.
+Qed.
+
+Lemma in_part_iff x p : in_part x p = true <-> ps p <= x < pe p.
+Proof.
+  unfold in_part. rewrite andb_true_iff, Z.leb_le, Z.ltb_lt. reflexivity.
+Qed.
+
+(* a window joining the last area of [s1, N) with the first area of [0, e2) over the origin *)
+Lemma merged_area_ok N cds p1 p2 ml ov pre post :
+  0 < N -> 0 <= ml -> 0 <= ov -> starts_sorted (map gene_span cds) ->
+  pe p1 = N -> ps p2 = 0 -> 0 < pe p2 -> pe p2 <= ps p1 -> ps p1 < N ->
+  helper_complete cds p1 = true -> helper_complete cds p2 = true -> no_gene_in_both cds p1 p2 = true ->
+  let areas := flat_map (fun p => find_intergenic_areas (ps p) (pe p) (map gene_span (cds_within cds p)) ml ov) [p1; p2] in
+  In pre areas -> In post areas -> snd pre = N -> fst post = 0 -> fst pre - N < 0 ->
+  area_ok N cds (Some [p1; p2]) ov (fst pre - N, snd post).
+Proof.
+  intros HN Hml Hov Hs E1 E2 E3 E4 E5 Hh1 Hh2 Hboth. cbn zeta. cbn [flat_map]. rewrite app_nil_r.
+  intros Hpre Hpost Hsp Hfp Hneg.
+  pose proof (cds_within_sorted cds p1 Hs) as Hs1. pose proof (cds_within_sorted cds p2 Hs) as Hs2.
+  assert (Hpre1 : In pre (find_intergenic_areas (ps p1) (pe p1) (map gene_span (cds_within cds p1)) ml ov)).
+  { apply in_app_or in Hpre. destruct Hpre as [H|H]; [exact H|exfalso].
+    destruct (area_bounds _ _ _ _ _ _ Hov Hs2 H) as (_ & Hb & _). lia. }
+  assert (Hpost2 : In post (find_intergenic_areas (ps p2) (pe p2) (map gene_span (cds_within cds p2)) ml ov)).
+  { apply in_app_or in Hpost. destruct Hpost as [H|H]; [exfalso|exact H].
+    destruct (area_bounds _ _ _ _ _ _ Hov Hs1 H) as (Hb & _ & _). lia. }
+  destruct (area_bounds _ _ _ _ _ _ Hov Hs1 Hpre1) as (Ha1 & Ha2 & Ha3).
+  destruct (area_bounds _ _ _ _ _ _ Hov Hs2 Hpost2) as (Hb1 & Hb2 & Hb3).
+  set (a := fst pre) in *. set (b := snd post) in *.
+  assert (Hpos : area_positions N (a - N, b) = zrange a (N - a) ++ zrange 0 b).
+  { unfold area_positions. cbn [fst snd]. replace (b - (a - N)) with ((N - a) + b) by lia.
+    rewrite zrange_app by lia. rewrite map_app. f_equal.
+    - replace (a - N) with (a + (-1) * N) by lia. rewrite map_mod_zrange_shift. apply map_mod_zrange_id; lia.
+    - replace (a - N + (N - a)) with 0 by lia. apply map_mod_zrange_id; lia. }
+  unfold area_ok. cbn [fst snd]. rewrite Hpos. split; [right; lia|]. split; [lia|]. split.
+  - intros c Hc. rewrite count_app.
+    pose proof (part_gene_bound cds p1 ml ov pre c Hov Hs Hh1 Hpre1 Hc) as B1.
+    pose proof (part_gene_bound cds p2 ml ov post c Hov Hs Hh2 Hpost2 Hc) as B2.
+    replace (snd pre - fst pre) with (N - a) in B1 by (unfold a; lia).
+    replace (snd post - fst post) with b in B2 by (unfold b; lia). rewrite Hfp in B2. fold a in B1.
+    unfold no_gene_in_both in Hboth. rewrite forallb_forall in Hboth. specialize (Hboth c Hc).
+    apply negb_true_iff in Hboth. apply andb_false_iff in Hboth. destruct Hboth as [Hno|Hno].
+    + rewrite (count_none _ (zrange a (N - a))); [lia|]. intros x Hx. apply zrange_In in Hx.
+      destruct (in_loc x c) eqn:Hxc; [|reflexivity]. exfalso.
+      pose proof (no_overlap_no_position c p1 x Hno Hxc) as Hp.
+      assert (in_part x p1 = true) by (apply in_part_iff; lia). congruence.
+    + rewrite (count_none _ (zrange 0 b)); [lia|]. intros x Hx. apply zrange_In in Hx.
+      destruct (in_loc x c) eqn:Hxc; [|reflexivity]. exfalso.
+      pose proof (no_overlap_no_position c p2 x Hno Hxc) as Hp.
+      assert (in_part x p2 = true) by (apply in_part_iff; lia). congruence.
+  - intros x Hx. cbn [in_searched in_loc existsb]. apply in_app_or in Hx. destruct Hx as [Hx|Hx]; apply zrange_In in Hx.
+    + assert (E : in_part x p1 = true) by (apply in_part_iff; lia). rewrite E. reflexivity.
+    + assert (E : in_part x p2 = true) by (apply in_part_iff; lia). rewrite E. apply orb_true_r.
+Qed.
+
+(* all the areas find_all_orfs scans are fine, under the guard *)
+Lemma intergenic_for_ok N cds area ml ov areas :
+  gaps_guard N cds area ml ov = true -> intergenic_for N cds area ml ov = Ok areas ->
+  Forall (area_ok N cds area ov) areas.
+Proof.
+  unfold gaps_guard, gaps_wf. intros Hg Hres.
+  apply andb_prop in Hg. destruct Hg as [Hwf Hcls].
+  apply andb_prop in Hwf. destruct Hwf as [Hwf Hshape].
+  apply andb_prop in Hwf. destruct Hwf as [Hwf Hsb]. apply starts_sortedb_spec in Hsb.
+  apply andb_prop in Hwf. destruct Hwf as [Hwf Hov]. apply Z.leb_le in Hov.
+  apply andb_prop in Hwf. destruct Hwf as [HN Hml]. apply Z.ltb_lt in HN. apply Z.leb_le in Hml.
+  apply Forall_forall. intros a Ha.
+  destruct area as [aloc|].
+  - destruct aloc as [|p1 [|p2 [|p3 rest]]]; try discriminate.
+    + (* one part *)
+      cbn [intergenic_for is_compound] in Hres. inversion Hres; subst areas. clear Hres.
+      replace (lstart [p1]) with (ps p1) in Ha by reflexivity. replace (lend [p1]) with (pe p1) in Ha by reflexivity.
+      apply andb_prop in Hshape. destruct Hshape as [Hshape H3]. apply andb_prop in Hshape. destruct Hshape as [H1 H2].
+      apply Z.leb_le in H1, H2, H3.
+      destruct (area_bounds _ _ _ _ _ _ Hov (cds_within_sorted cds p1 Hsb) Ha) as (B1 & B2 & B3).
+      apply (plain_area_ok N cds (Some [p1]) ov a (ps p1) (pe p1)); try lia.
+      * intros c Hc. exact (part_gene_bound cds p1 ml ov a c Hov Hsb Hcls Ha Hc).
+      * intros x Hx. cbn [in_searched in_loc existsb]. rewrite orb_false_r. apply in_part_iff. exact Hx.
+    + (* two parts over the origin *)
+      cbn [intergenic_for is_compound] in Hres.
+      apply andb_prop in Hshape. destruct Hshape as [Hshape E5]. apply andb_prop in Hshape. destruct Hshape as [Hshape E4].
+      apply andb_prop in Hshape. destruct Hshape as [Hshape E3]. apply andb_prop in Hshape. destruct Hshape as [E1 E2].
+      apply Z.eqb_eq in E1, E2. apply Z.ltb_lt in E3, E5. apply Z.leb_le in E4.
+      apply andb_prop in Hcls. destruct Hcls as [Hcls Hboth]. apply andb_prop in Hcls. destruct Hcls as [Hh1 Hh2].
+      pose proof (cross_origin_result N cds [p1; p2] ml ov areas Hres a Ha) as Hcase. cbn zeta in Hcase.
+      destruct Hcase as [Hin|(pre & post & Hpre & Hpost & Hsp & Hfp & Hneg & ->)].
+      * cbn [flat_map] in Hin. rewrite app_nil_r in Hin. apply in_app_or in Hin. destruct Hin as [Hin|Hin].
+        -- destruct (area_bounds _ _ _ _ _ _ Hov (cds_within_sorted cds p1 Hsb) Hin) as (B1 & B2 & B3).
+           apply (plain_area_ok N cds (Some [p1; p2]) ov a (ps p1) (pe p1)); try lia.
+           ++ intros c Hc. exact (part_gene_bound cds p1 ml ov a c Hov Hsb Hh1 Hin Hc).
+           ++ intros x Hx. cbn [in_searched in_loc existsb].
+              assert (E : in_part x p1 = true) by (apply in_part_iff; lia). rewrite E. reflexivity.
+        -- destruct (area_bounds _ _ _ _ _ _ Hov (cds_within_sorted cds p2 Hsb) Hin) as (B1 & B2 & B3).
+           apply (plain_area_ok N cds (Some [p1; p2]) ov a (ps p2) (pe p2)); try lia.
+           ++ intros c Hc. exact (part_gene_bound cds p2 ml ov a c Hov Hsb Hh2 Hin Hc).
+           ++ intros x Hx. cbn [in_searched in_loc existsb].
+              assert (E : in_part x p2 = true) by (apply in_part_iff; lia). rewrite E. apply orb_true_r.
+      * exact (merged_area_ok N cds p1 p2 ml ov pre post HN Hml Hov Hsb E1 E2 E3 E4 E5 Hh1 Hh2 Hboth Hpre Hpost Hsp Hfp Hneg).
+  - (* whole record *)
+    cbn [intergenic_for] in Hres. inversion Hres; subst areas. clear Hres.
+    destruct (area_bounds _ _ _ _ _ _ Hov Hsb Ha) as (B1 & B2 & B3).
+    apply (plain_area_ok N cds None ov a 0 N); try lia.
+    + intros c Hc. exact (found_gene_bound 0 N cds ml ov a c Hov Hsb Ha Hc).
+    + intros x Hx. cbn [in_searched]. apply andb_true_intro. split; [apply Z.leb_le|apply Z.ltb_lt]; lia.
+Qed.
+
+(* ------------------------------------------------------------------ an ORF found in an area lies in the area *)
+Lemma middle_piece (f : Z -> Z) whole pre mid post : whole = pre ++ mid ++ post ->
+  (forall x, In x (map f mid) -> In x (map f whole)) /\
+  (forall P, count P (map f mid) <= count P (map f whole)).
+Proof.
+  intros ->. split.
+  - intros x Hx. rewrite !map_app. apply in_or_app. right. apply in_or_app. left. exact Hx.
+  - intros P. rewrite !map_app, !count_app.
+    pose proof (count_nonneg P (map f pre)). pose proof (count_nonneg P (map f post)). lia.
+Qed.
+
+Lemma orf_in_area g a ml l cds area ov :
+  area_ok (zlen g) cds area ov a -> In l (area_orfs g ml a) ->
+  (forall x, In x (positions l) -> In x (area_positions (zlen g) a)) /\
+  (forall P, count P (positions l) <= count P (area_positions (zlen g) a)).
+Proof.
+  destruct a as [s e]. intros (Hw & Hlen & _ & _) Hin. cbn [fst snd] in Hw, Hlen.
+  assert (HN : 0 < zlen g \/ e - s <= 0) by (destruct Hw; lia).
+  unfold area_orfs in Hin. apply in_app_or in Hin.
+  assert (Hcase : exists direction, (direction = 1 \/ direction = -1) /\
+            In l (scan_orfs (window g s e direction) direction s ml (Some (zlen g)))).
+  { destruct Hin as [H|H]; [exists 1|exists (-1)]; (split; [auto|exact H]). }
+  clear Hin. destruct Hcase as (direction & Hdir & Hin).
+  destruct (scan_orfs_extract_ring g s e direction ml l Hw Hlen Hdir Hin)
+    as (frame & a0 & b0 & _ & _ & Ha0 & Hab & Hb0 & -> & _).
+  assert (HN' : 0 < zlen g) by lia.
+  rewrite positions_orf_location by (try assumption; lia).
+  unfold expected_positions, area_positions. cbn [fst snd].
+  destruct Hdir as [-> | ->]; cbn [Z.eqb Pos.eqb].
+  - apply (middle_piece _ _ (zrange s a0) _ (zrange (s + a0 + (b0 - a0 + 1)) (e - s - a0 - (b0 - a0 + 1)))).
+    apply zrange_split; lia.
+  - rewrite map_rev.
+    destruct (middle_piece (fun x => x mod zlen g) (zrange s (e - s)) (zrange s (e - s - 1 - b0))
+                (zrange (s + (e - s) - 1 - b0) (b0 - a0 + 1))
+                (zrange (s + (e - s - 1 - b0) + (b0 - a0 + 1)) (e - s - (e - s - 1 - b0) - (b0 - a0 + 1)))) as [H1 H2].
+    { replace (s + (e - s) - 1 - b0) with (s + (e - s - 1 - b0)) by lia. apply zrange_split; lia. }
+    split.
+    + intros x Hx. apply in_rev in Hx. apply H1. exact Hx.
+    + intros P. rewrite count_rev. apply H2.
+Qed.
+
+(* ------------------------------------------------------------------ unwinding find_all_orfs *)
+Lemma mapM_In {A B} (f : A -> res B) : forall l out y, mapM f l = Ok out -> In y out -> exists x, In x l /\ f x = Ok y.
+Proof.
+  induction l as [|x l IH]; intros out y H Hy; cbn [mapM] in H.
+  - inversion H; subst. destruct Hy.
+  - destruct (f x) as [b|] eqn:Hfx; [|discriminate]. cbn [bind] in H.
+    destruct (mapM f l) as [bs|] eqn:Hm; [|discriminate]. cbn [bind] in H. inversion H; subst.
+    destruct Hy as [<-|Hy].
+    + exists x. split; [left; reflexivity|exact Hfx].
+    + destruct (IH bs y eq_refl Hy) as (x' & Hx' & Hf). exists x'. split; [right; exact Hx'|exact Hf].
+Qed.
+
+Lemma create_feature_loc g l f : create_feature g l = Ok f -> floc f = l.
+Proof.
+  unfold create_feature. destruct (aa_translation g l) as [t|]; [|discriminate]. cbn [bind].
+  destruct t as [|c r]; [discriminate|]. intros H. inversion H. reflexivity.
+Qed.
+
+Lemma find_all_orfs_unwind g cds area ml ov feats f :
+  find_all_orfs g cds area ml ov = Ok feats -> In f feats ->
+  exists areas a, intergenic_for (zlen g) cds area ml ov = Ok areas /\ In a areas /\
+                  In (floc f) (area_orfs g ml a) /\ create_feature g (floc f) = Ok f.
+Proof.
+  unfold find_all_orfs. intros H Hf.
+  destruct (intergenic_for (zlen g) cds area ml ov) as [areas|]; [|discriminate]. cbn [bind] in H.
+  destruct (existsb (fun a => zlen g <? snd a) areas); [discriminate|].
+  destruct (mapM (create_feature g) (flat_map (area_orfs g ml) areas)) as [fs|] eqn:Hm; [|discriminate].
+  cbn [bind] in H. inversion H; subst feats. apply sort_by_In in Hf.
+  destruct (mapM_In _ _ _ _ Hm Hf) as (l & Hl & Hc).
+  apply in_flat_map in Hl. destruct Hl as (a & Ha & Hla).
+  pose proof (create_feature_loc g l f Hc) as E. subst l.
+  exists areas, a. auto.
+Qed.
+
+(* C15_gaps: every feature returned by find_all_orfs lies inside one of the intergenic areas, shares at most
+   max_overlap positions with every gene of the record, and lies inside the searched part of the record *)
+Lemma find_all_orfs_gaps g cds area ml ov feats f :
+  gaps_guard (zlen g) cds area ml ov = true -> find_all_orfs g cds area ml ov = Ok feats -> In f feats ->
+  (exists areas a, intergenic_for (zlen g) cds area ml ov = Ok areas /\ In a areas /\
+                   forall x, In x (positions (floc f)) -> In x (area_positions (zlen g) a)) /\
+  (forall c, In c cds -> shared (floc f) c <= ov) /\
+  (forall x, In x (positions (floc f)) -> in_searched (zlen g) area x = true).
+Proof.
+  intros Hg Hres Hf.
+  destruct (find_all_orfs_unwind g cds area ml ov feats f Hres Hf) as (areas & a & Hareas & Ha & Hl & _).
+  pose proof (intergenic_for_ok _ _ _ _ _ _ Hg Hareas) as Hok. rewrite Forall_forall in Hok.
+  specialize (Hok a Ha).
+  destruct (orf_in_area g a ml (floc f) cds area ov Hok Hl) as [Hin Hcount].
+  destruct Hok as (_ & _ & Hgenes & Hsearch).
+  split; [exists areas, a; auto|]. split.
+  - intros c Hc. unfold shared. specialize (Hcount (fun x => in_loc x c)). specialize (Hgenes c Hc).
+    unfold count in *. lia.
+  - intros x Hx. apply Hsearch. apply Hin. exact Hx.
+Qed.
+
+(* ------------------------------------------------------------------ the translation of a new feature *)
+Definition acgt_codes : list Z := [65; 67; 71; 84; 97; 99; 103; 116].
+Definition odd_residue (aa : Z) : bool := existsb (Z.eqb aa) [42; 66; 74; 79; 85; 90].
+
+(* facts about the generated codon tables and the translation table, checked by evaluation over the 512
+   codons of ACGT/acgt: a codon translates to '*' exactly when the scan classifies it as a stop codon, no other
+   residue is replaced by X, and complementing stays inside the alphabet *)
+Lemma codon_table_facts :
+  forallb (fun a => forallb (fun b => forallb (fun c =>
+    Bool.eqb (translate_codon a b c =? 42) (kind_eqb (classify (upper a) (upper b) (upper c)) KStop) &&
+    Bool.eqb (odd_residue (translate_codon a b c)) (translate_codon a b c =? 42))
+    acgt_codes) acgt_codes) acgt_codes = true /\
+  forallb (fun a => acgtb (comp a)) acgt_codes = true.
+Proof. split; vm_compute; reflexivity. Qed.
+
+Lemma acgtb_In c : acgtb c = true -> In c acgt_codes.
+Proof.
+  unfold acgtb. intros H. apply existsb_exists in H. destruct H as (x & Hx & E). apply Z.eqb_eq in E. subst. exact Hx.
+Qed.
+
+Lemma codon_facts a b c : acgtb a = true -> acgtb b = true -> acgtb c = true ->
+  (translate_codon a b c =? 42) = kind_eqb (classify (upper a) (upper b) (upper c)) KStop /\
+  odd_residue (translate_codon a b c) = (translate_codon a b c =? 42).
+Proof.
+  intros Ha Hb Hc. apply acgtb_In in Ha, Hb, Hc. destruct codon_table_facts as [H _].
+  rewrite forallb_forall in H. specialize (H a Ha). rewrite forallb_forall in H. specialize (H b Hb).
+  rewrite forallb_forall in H. specialize (H c Hc). apply andb_prop in H. destruct H as [H1 H2].
+  apply eqb_prop in H1. apply eqb_prop in H2. split; assumption.
+Qed.
+Lemma comp_acgt a : acgtb a = true -> acgtb (comp a) = true.
+Proof.
+  intros Ha. apply acgtb_In in Ha. destruct codon_table_facts as [_ H]. rewrite forallb_forall in H. exact (H a Ha).
+Qed.
+
+Definition acgt (l : list Z) : Prop := Forall (fun c => acgtb c = true) l.
+
+Lemma acgt_firstn k l : acgt l -> acgt (firstn k l).
+Proof. unfold acgt. rewrite !Forall_forall. intros H x Hx. apply H. eapply In_firstn_incl. exact Hx. Qed.
+Lemma acgt_skipn k l : acgt l -> acgt (skipn k l).
+Proof. unfold acgt. rewrite !Forall_forall. intros H x Hx. apply H. eapply In_skipn_incl. exact Hx. Qed.
+Lemma acgt_app a b : acgt a -> acgt b -> acgt (a ++ b).
+Proof. unfold acgt. intros Ha Hb. apply Forall_app. split; assumption. Qed.
+Lemma acgt_revcomp l : acgt l -> acgt (revcomp l).
+Proof.
+  unfold acgt, revcomp. rewrite !Forall_forall. intros H x Hx. apply in_rev in Hx. apply in_map_iff in Hx.
+  destruct Hx as (y & <- & Hy). apply comp_acgt. apply H. exact Hy.
+Qed.
+Lemma acgt_window g s e direction : acgt g -> acgt (window g s e direction).
+Proof.
+  intros Hg. assert (Hc : acgt (chunk g s e)).
+  { unfold chunk. destruct (0 <=? s); [unfold slice; apply acgt_firstn, acgt_skipn; exact Hg|].
+    apply acgt_app; [apply acgt_skipn|apply acgt_firstn]; exact Hg. }
+  unfold window. destruct (direction =? -1); [apply acgt_revcomp|]; exact Hc.
+Qed.
+
+Lemma kinds_firstn : forall k l, kinds (firstn (3 * k) l) = firstn k (kinds l).
+Proof.
+  induction k as [|k IH]; intros l; [reflexivity|].
+  replace (3 * S k)%nat with (S (S (S (3 * k)))) by lia.
+  destruct l as [|a [|b [|c r]]]; try reflexivity. cbn [firstn kinds]. f_equal. apply IH.
+Qed.
+Lemma kinds_skipn : forall k l, kinds (skipn (3 * k) l) = skipn k (kinds l).
+Proof.
+  induction k as [|k IH]; intros l; [reflexivity|].
+  replace (3 * S k)%nat with (S (S (S (3 * k)))) by lia.
+  destruct l as [|a [|b [|c r]]].
+  - cbn [skipn kinds]. destruct k; reflexivity.
+  - cbn [skipn kinds]. destruct (3 * k)%nat; destruct k; reflexivity.
+  - cbn [skipn kinds]. destruct (3 * k)%nat; destruct k; reflexivity.
+  - cbn [skipn kinds]. apply IH.
+Qed.
+Lemma nth_error_firstn_lt {A} : forall k (l : list A) j, (j < k)%nat -> nth_error (firstn k l) j = nth_error l j.
+Proof.
+  induction k as [|k IH]; intros l j H; [lia|]. destruct l as [|x l]; [destruct j; reflexivity|].
+  destruct j as [|j]; [reflexivity|]. cbn. apply IH. lia.
+Qed.
+Lemma nth_error_skipn_add {A} : forall k (l : list A) j, nth_error (skipn k l) j = nth_error l (k + j).
+Proof.
+  induction k as [|k IH]; intros l j; [reflexivity|]. destruct l as [|x l]; [destruct j; reflexivity|]. cbn. apply IH.
+Qed.
+
+(* translating up to the first stop codon: the residues of the codons before it, none of them replaced *)
+Lemma translate_to_stop : forall k T, acgt T ->
+  (forall j, (j < k)%nat -> nth_error (kinds (map upper T)) j <> Some KStop) ->
+  nth_error (kinds (map upper T)) k = Some KStop ->
+  translate true T = translate false (firstn (3 * k) T) /\
+  Forall (fun aa => odd_residue aa = false) (translate true T) /\ length (translate true T) = k.
+Proof.
+  induction k as [|k IH]; intros T Hacgt Hno Hstop.
+  - destruct T as [|a [|b [|c r]]]; try discriminate.
+    inversion Hacgt as [|? ? Ha H1]; subst. inversion H1 as [|? ? Hb H2]; subst. inversion H2 as [|? ? Hc H3]; subst.
+    destruct (codon_facts a b c Ha Hb Hc) as [F1 _].
+    cbn [map kinds nth_error] in Hstop. inversion Hstop as [E]. rewrite E in F1. cbn [kind_eqb] in F1.
+    cbn [translate firstn Nat.mul]. rewrite F1. cbn [andb]. split; [reflexivity|]. split; [constructor|reflexivity].
+  - destruct T as [|a [|b [|c r]]]; try discriminate.
+    inversion Hacgt as [|? ? Ha H1]; subst. inversion H1 as [|? ? Hb H2]; subst. inversion H2 as [|? ? Hc H3]; subst.
+    destruct (codon_facts a b c Ha Hb Hc) as [F1 F2].
+    cbn [map kinds nth_error] in Hstop.
+    assert (Hk0 : classify (upper a) (upper b) (upper c) <> KStop).
+    { intros E. apply (Hno 0%nat ltac:(lia)). cbn [map kinds nth_error]. rewrite E. reflexivity. }
+    assert (F : (translate_codon a b c =? 42) = false).
+    { rewrite F1. destruct (classify (upper a) (upper b) (upper c)); try reflexivity. contradiction. }
+    destruct (IH r H3) as (E1 & E2 & E3).
+    { intros j Hj. specialize (Hno (S j) ltac:(lia)). cbn [map kinds nth_error] in Hno. exact Hno. }
+    { exact Hstop. }
+    replace (3 * S k)%nat with (S (S (S (3 * k)))) by lia.
+    cbn [translate firstn]. rewrite F. cbn [andb]. split; [f_equal; exact E1|]. split.
+    + constructor; [rewrite F2; exact F|exact E2].
+    + cbn [length]. f_equal. exact E3.
+Qed.
+
+Lemma filter_acgt T : acgt T -> filter (fun c => negb (c =? 45)) T = T.
+Proof.
+  induction T as [|x T IH]; intros H; [reflexivity|]. inversion H as [|? ? Hx HT]; subst. cbn [filter].
+  assert (E : (x =? 45) = false).
+  { apply acgtb_In in Hx. cbn in Hx. destruct Hx as [<-|[<-|[<-|[<-|[<-|[<-|[<-|[<-|[]]]]]]]]]; reflexivity. }
+  rewrite E. cbn [negb]. f_equal. apply IH. exact HT.
+Qed.
+Lemma map_id_on {A} (f : A -> A) l : Forall (fun x => f x = x) l -> map f l = l.
+Proof. induction l as [|x l IH]; intros H; [reflexivity|]. inversion H; subst. cbn [map]. f_equal; [assumption|apply IH; assumption]. Qed.
+
+(* the whole create_feature_from_location path on an ORF text *)
+Lemma create_feature_orf g l f T k :
+  create_feature g l = Ok f -> lend l <= zlen g -> extract g l = T -> acgt T -> (1 <= k)%nat ->
+  length T = (3 * (k + 1))%nat ->
+  (forall j, (j < k)%nat -> nth_error (kinds (map upper T)) j <> Some KStop) ->
+  nth_error (kinds (map upper T)) k = Some KStop ->
+  ftrans f = orf_protein T.
+Proof.
+  intros Hc Hend Hex Hacgt Hk Hlen Hno Hstop.
+  destruct (translate_to_stop k T Hacgt Hno Hstop) as (E1 & E2 & E3).
+  unfold create_feature, aa_translation in Hc.
+  assert (Hlt : (zlen g <? lend l) = false) by (apply Z.ltb_ge; exact Hend). rewrite Hlt in Hc.
+  rewrite Hex, (filter_acgt T Hacgt) in Hc. cbn [bind] in Hc.
+  destruct (translate true T) as [|c r] eqn:Ht; [cbn [length] in E3; lia|].
+  rewrite map_id_on in Hc.
+  2:{ eapply Forall_impl; [|exact E2]. cbn beta. intros aa Haa. unfold odd_residue in Haa. rewrite Haa. reflexivity. }
+  unfold orf_protein. rewrite Hlen. replace (3 * (k + 1) - 3)%nat with (3 * k)%nat by lia. rewrite <- E1.
+  inversion Hc. cbn [ftrans]. destruct (c =? 77) eqn:E; [apply Z.eqb_eq in E; subst c|]; reflexivity.
+Qed.
+
+Lemma orf_location_lend direction offset n N s e :
+  (direction = 1 \/ direction = -1) -> 0 < N -> 0 <= s -> s < e -> e - s + 1 <= N ->
+  lend (orf_location direction offset n (Some N) (s, e)) <= N.
+Proof.
+  intros Hdir HN Hs Hse Hlen.
+  destruct (orf_location_ring direction offset n N s e Hdir HN Hs Hse Hlen) as (_ & Hall & (a & b & Hshape)).
+  destruct Hshape as [E|[[_ E]|[_ E]]]; rewrite E in *; unfold lend; cbn [map lmax fold_left pe].
+  - inversion Hall as [|? ? H1 _]; subst. cbn [pe] in H1. lia.
+  - inversion Hall as [|? ? H1 H2]; subst. inversion H2 as [|? ? H3 _]; subst. cbn [pe] in H1, H3. lia.
+  - inversion Hall as [|? ? H1 H2]; subst. inversion H2 as [|? ? H3 _]; subst. cbn [pe] in H1, H3. lia.
+Qed.
+
+Lemma skipn_add {A} : forall a b (l : list A), skipn b (skipn a l) = skipn (a + b) l.
+Proof.
+  induction a as [|a IH]; intros b l; [reflexivity|]. destruct l as [|x l]; [destruct b; reflexivity|]. cbn. apply IH.
+Qed.
+
+(* the codon kinds of the text of a reported stretch are a piece of the frame's codon kinds *)
+Lemma kinds_of_stretch (W : list Z) (frame s k : nat) :
+  kinds (map upper (firstn (3 * (k + 1)) (skipn (frame + 3 * s) W))) =
+  firstn (k + 1) (skipn s (kinds (skipn frame (map upper W)))).
+Proof.
+  rewrite <- firstn_map, <- skipn_map. rewrite kinds_firstn. f_equal.
+  rewrite <- kinds_skipn. f_equal. rewrite skipn_add. reflexivity.
+Qed.
+
+(* the translation clause: on an ACGT/acgt genome the stored translation of every new feature is the protein of
+   the text its location extracts to - the codons before the stop codon translated one by one, first residue M *)
+Lemma find_all_orfs_translation g cds area ml ov feats f :
+  gaps_guard (zlen g) cds area ml ov = true -> acgt g ->
+  find_all_orfs g cds area ml ov = Ok feats -> In f feats ->
+  ftrans f = orf_protein (extract g (floc f)).
+Proof.
+  intros Hg Hacgt Hres Hf.
+  destruct (find_all_orfs_unwind g cds area ml ov feats f Hres Hf) as (areas & [s e] & Hareas & Ha & Hl & Hc).
+  pose proof (intergenic_for_ok _ _ _ _ _ _ Hg Hareas) as Hok. rewrite Forall_forall in Hok.
+  destruct (Hok _ Ha) as (Hw & Hlen & _ & _). cbn [fst snd] in Hw, Hlen.
+  unfold area_orfs in Hl. apply in_app_or in Hl.
+  assert (Hcase : exists direction, (direction = 1 \/ direction = -1) /\
+            In (floc f) (scan_orfs (window g s e direction) direction s ml (Some (zlen g)))).
+  { destruct Hl as [H|H]; [exists 1|exists (-1)]; (split; [auto|exact H]). }
+  clear Hl. destruct Hcase as (direction & Hdir & Hin).
+  destruct (scan_orfs_extract_ring g s e direction ml (floc f) Hw Hlen Hdir Hin)
+    as (frame & a0 & b0 & Hframe & Horf & Ha0 & Hab & Hb0 & Hloc & Hext).
+  pose proof (frame_orfs_bounds _ _ _ _ Hframe Horf) as Hbounds. cbn [fst snd] in Hbounds. rewrite zlen_map in Hbounds.
+  apply frame_orfs_spec in Horf. destruct Horf as (s' & e' & His & Hco & _).
+  unfold orf_coords in Hco. cbn [fst snd] in Hco. apply pair_equal_spec in Hco. destruct Hco as [-> ->].
+  destruct His as (Hse & Hstart & Hstop & Hmid & _).
+  assert (HN : 0 < zlen g) by lia.
+  set (W := window g s e direction) in *. set (k := (e' - s')%nat).
+  assert (HT : slice W (Z.of_nat frame + 3 * Z.of_nat s') (Z.of_nat frame + 3 * Z.of_nat e' + 2 + 1) =
+               firstn (3 * (k + 1)) (skipn (frame + 3 * s') W)).
+  { unfold slice, k. f_equal; [lia|f_equal; lia]. }
+  rewrite HT in Hext.
+  rewrite Hext at 1.
+  apply (create_feature_orf g (floc f) f (firstn (3 * (k + 1)) (skipn (frame + 3 * s') W)) k Hc).
+  - rewrite Hloc. apply orf_location_lend; try assumption; lia.
+  - exact Hext.
+  - apply acgt_firstn, acgt_skipn. apply acgt_window. exact Hacgt.
+  - unfold k. lia.
+  - rewrite firstn_length, skipn_length. unfold zlen in Hbounds. unfold k. lia.
+  - intros j Hj. rewrite kinds_of_stretch. rewrite nth_error_firstn_lt by lia. rewrite nth_error_skipn_add.
+    destruct j as [|j].
+    + rewrite Nat.add_0_r, Hstart. discriminate.
+    + apply Hmid. unfold k in Hj. lia.
+  - rewrite kinds_of_stretch. rewrite nth_error_firstn_lt by lia. rewrite nth_error_skipn_add.
+    replace (s' + k)%nat with e' by (unfold k; lia). exact Hstop.
+Qed.
+
+(* the boolean specification evaluated at run time on every find_all_orfs output holds for the model's output *)
+Lemma find_all_orfs_spec_ok g cds area ml ov feats :
+  gaps_guard (zlen g) cds area ml ov = true -> forallb acgtb g = true ->
+  find_all_orfs g cds area ml ov = Ok feats ->
+  forallb (feature_ok g cds area ov) feats = true.
+Proof.
+  intros Hg Hacgt Hres. apply forallb_forall. intros f Hf.
+  assert (Hacgt' : acgt g) by (unfold acgt; apply Forall_forall; rewrite forallb_forall in Hacgt; exact Hacgt).
+  destruct (find_all_orfs_gaps g cds area ml ov feats f Hg Hres Hf) as (_ & Hgenes & Hsearch).
+  pose proof (find_all_orfs_translation g cds area ml ov feats f Hg Hacgt' Hres Hf) as Htr.
+  unfold feature_ok. apply andb_true_intro. split; [apply andb_true_intro; split|].
+  - apply forallb_forall. intros c Hc. apply Z.leb_le. exact (Hgenes c Hc).
+  - apply forallb_forall. exact Hsearch.
+  - rewrite Htr. clear. induction (orf_protein (extract g (floc f))) as [|x l IH]; [reflexivity|].
+    cbn [zl_eqb]. rewrite Z.eqb_refl. exact IH.
+Qed.
+
+(* the guard is needed: recorded finding FC15a area_misses_enclosing_gene as a statement about the model - a well-formed
+   input outside the guard (class 1) on which a returned feature shares more than max_overlap positions with a gene *)
+Lemma gaps_refuted_helper : exists g cds area ml ov feats f c,
+  gaps_wf (zlen g) cds (Some area) ml ov = true /\ forallb acgtb g = true /\ gaps_class cds (Some area) = 1 /\
+  find_all_orfs g cds (Some area) ml ov = Ok feats /\ In f feats /\ In c cds /\ ov < shared (floc f) c.
+Proof.
+  exists [67; 67; 67; 67; 67; 67; 67; 67; 67; 67; 67; 67; 67; 67; 67; 67; 67; 67; 67; 67; 67; 67; 67; 67; 67; 67; 67; 67; 67; 67; 67; 67; 67; 65; 84; 71; 65; 65; 65; 84; 65; 65; 67; 67; 67; 67; 67; 67; 67; 67; 67; 67; 67; 67; 67; 67; 67; 67; 67; 67],
+         [[mkPart 5 40 (1)]; [mkPart 10 20 (1)]],
+         [mkPart 30 60 (1)], 5, 0.
+  eexists. eexists. eexists.
+  split; [vm_compute; reflexivity|]. split; [vm_compute; reflexivity|]. split; [vm_compute; reflexivity|].
+  split; [vm_compute; reflexivity|].
+  split; [left; reflexivity|]. split; [left; reflexivity|]. vm_compute. reflexivity.
+Qed.
+
+(* the guard is needed: recorded finding FC15b origin_gene_padding_window as a statement about the model - a well-formed
+   input outside the guard (class 2) on which a returned feature shares more than max_overlap positions with a gene *)
+Lemma gaps_refuted_origin : exists g cds area ml ov feats f c,
+  gaps_wf (zlen g) cds (Some area) ml ov = true /\ forallb acgtb g = true /\ gaps_class cds (Some area) = 2 /\
+  find_all_orfs g cds (Some area) ml ov = Ok feats /\ In f feats /\ In c cds /\ ov < shared (floc f) c.
+Proof.
+  exists [84; 65; 71; 84; 67; 71; 84; 71; 84; 71; 67; 84; 71; 65; 67; 84; 84; 71; 65; 65; 84; 84; 84; 67; 67; 71; 84; 67; 71; 71; 84; 71; 67; 67; 65; 84; 71; 84; 65; 84; 71; 67; 65; 84; 67; 71; 84],
+         [[mkPart 0 9 (-1); mkPart 36 47 (-1)]; [mkPart 38 42 (1)]],
+         [mkPart 26 47 (1); mkPart 0 6 (1)], 5, 10.
+  eexists. eexists. eexists.
+  split; [vm_compute; reflexivity|]. split; [vm_compute; reflexivity|]. split; [vm_compute; reflexivity|].
+  split; [vm_compute; reflexivity|].
+  split; [left; reflexivity|]. split; [left; reflexivity|]. vm_compute. reflexivity.
+Qed.
